@@ -1,10 +1,51 @@
 # C12 registry entry (M is injected by lib/props.py)
 PROP = dict(
     title="Matrix factorisations recompose to their input with structured factors",
-    rule="TBD",
-    assumptions=[],
-    technique="TBD",
-    level_text="TBD",
-    level_note="TBD",
-    monitors=[M("c12_factor", ["c12_shrt.cpp", "c12_svd.cpp", "c12_procrustes.cpp"], san_scale=0.05)],
+    rule=("One monitor, 32 sub-checks in three families; every case is generated from (seed, sub-check, index) with the input class = index mod K, "
+          "so every boundary class is hit deterministically; cases are distinct by a hash of the literal input (matrix entries / point "
+          "coordinates, weights and flags; capped by the framework, i.e. a lower bound) and every judged case is non-trivial (it exercises a full factorisation). "
+          "(A) SHRT decompositions, float and double, 3-D (Matrix44) and 2-D (Matrix33): affine matrices built as S*H*R*T in long double from random "
+          "(s,h,r,t) (16 resp. 12 classes: 1/2/3 negative scales, gimbal-lock and quarter-turn angles, no shear / shear up to 1e3, scales 2^-250..2^250 "
+          "(float 2^-30..2^30), one tiny scale down to 2^-500, uniform scale / identity / pure translation) and general affine matrices U diag V^T with graded "
+          "conditioning and dense Gaussian matrices with det > 0 / < 0. Each case runs extractSHRT, extractScaling, extractScalingAndShear, "
+          "extractAndRemoveScalingAndShear, removeScalingAndShear, sansScalingAndShear (value and in/out overload), sansScaling, removeScaling with exc "
+          "alternating; the returned factors are recomposed by the monitor (own long-double builders written from the documented conventions) and compared "
+          "with the input row by row: max_j|rec[i][j]-M[i][j]| <= 16 eps kappa |M[i]|, kappa = ||Ln||_F ||Ln^-1||_F of the row-normalised linear part; residual "
+          "rotations must satisfy max|R R^T - I| <= 16 eps kappa and det R > 0; translation rows must be preserved exactly (R*T results) or to 4 eps (H*R*T "
+          "results). Matrices with eps*kappa > 2^-12 are 'nearly singular': executed, counted, not judged. extractSHRT's rOrder and Euler overloads are run for "
+          "all 24 orders (rotation recomposed through Euler<T>::toMatrix44); computeRSMatrix on pairs of regular matrices x 4 flag combinations against "
+          "scale(A|B)*rotate(A|B)*translate(A). Degenerate input: matrices whose computed scale is exactly 0 (zero rows, axis-parallel and axis-coplanar rows - "
+          "the Gram-Schmidt arithmetic is exact there - at magnitudes 2^-200..2^200) must be reported by every entry point (false and input unchanged / "
+          "fall-back returned with exc=false, std::domain_error with exc=true; computeRSMatrix: std::domain_error); checkForZeroScaleInRow(Vec2/Vec3) is "
+          "compared with the exact overflow criterion |row_i|/|scl| > max around its guard (scl = +-0, denorm_min, subnormal, min normal, boundary +- k eps). "
+          "(B) jacobiSVD 3x3/4x4, float/double, forcePositiveDeterminant off/on and default arguments, on 16 classes of real matrices (Gaussian, magnitude "
+          "sweep, rank 1 / N-1, exactly rank-deficient, repeated singular values, scaled signed permutations, diagonal, zero/identity, integer lattice, "
+          "symmetric, antisymmetric, graded conditioning, det<0, nearly diagonal, orthogonal): U^T U = I, V^T V = I, U diag(S) V^T = A, S descending and "
+          "non-negative (with the flag: det U, det V > 0 and only the last value may be negative). jacobiEigenSolver (both overloads), minEigenVector, "
+          "maxEigenVector on 14 classes of symmetric matrices: V^T V = I, V diag(S) V^T = A; min/max vectors: unit length, A v = (v.Av) v and |v.Av| equal to the "
+          "extreme |eigenvalue| of a reference cyclic-Jacobi solver in long double. "
+          "(C) procrustesRotationAndTranslation, V3f/V3d x weighted/unweighted x doScale: 'exact' cases where B_i = s A_i R + t holds exactly for the stored "
+          "points (integer lattice points, rational rotations from integer quaternions, dyadic scales; 1..200 points, single point, 2 points, collinear, coplanar, "
+          "coincident, zero weights with unrelated partners, weights 2^-12..2^12) or up to the rounding of B: the result must be a proper scaled rotation + "
+          "translation, map every A_i onto B_i and (when the points determine it) equal the transform, tolerance 128 eps_double K (64 eps_T K for rounded B) with "
+          "K = big*spread1/spread2^2 the conditioning of the point set; 'optimal' cases (noisy, unrelated, reflected, affine images): none of 64 rotations "
+          "(8 axes x 1e-1..1e-8 rad) about the centroid of B may reduce the weighted residual by more than 1e-9 of it."),
+    assumptions=["an Euler<T> out-parameter is expected to represent the rotation as an Euler object (its own order, angles in its ijk layout); the Vec3 "
+                 "out-parameter of the rOrder overload is read in XYZ layout (what the library's toXYZVector documents)",
+                 "the 24 non-default rotation orders are recomposed through Euler<T>::toMatrix44 (decided by C11), all other factors through the monitor's own builders",
+                 "'degenerate' is judged only where the computed scale is exactly zero (exact arithmetic); nearly singular input (eps*kappa > 2^-12) is executed and counted, not judged",
+                 "procrustes inputs whose optimum is not unique (coincident points with doScale, rank <= 1 correlation in the noisy classes, "
+                 "sigma2+det*sigma3 < 1e-6 sigma1, point sets with conditioning K > 1e6) are executed and counted, not judged",
+                 "long double (64-bit significand) is accurate enough as reference for tolerances of >= 16 eps_double; glibc sinl/cosl/atan2l/sqrtl are correct",
+                 "gcc on x86-64 without FMA contraction; other compilers' code generation is not observed"],
+    technique=("class-directed randomized execution of the real factorisation code with independent long-double recomposition oracles, exact-lattice "
+               "point sets for procrustes, perturbation test of first-order optimality, exception-contract checks on exactly degenerate input; ASan/UBSan on a sampled sweep"),
+    level_text=("Every entry point named in the statement (11 3-D and 8 2-D SHRT functions in all overloads, computeRSMatrix, both checkForZeroScaleInRow, "
+                "jacobiSVD 3x3/4x4, jacobiEigenSolver 3x3/4x4 in both overloads, min/maxEigenVector, all four procrustes instantiations) is executed for float and double "
+                "on 1.4e7 (quick) / 1.5e8 (thorough) generated inputs per run, drawn from boundary classes that cover each class of the quantifier deterministically, "
+                "and each result is judged against the defining identity evaluated independently in long double with tolerances calibrated to >= 8x the worst "
+                "pristine ratio. The input spaces are continuous, so this is sampling: a defect confined to a set of inputs that none of the classes reaches would be missed."),
+    level_note=("sampling of continuous input spaces; nearly singular / non-unique inputs are counted but not judged; non-XYZ rotation orders are recomposed "
+                "through Euler<T> (trusting C11); NaN/inf inputs and perspective (non-affine) matrices are outside the statement and not generated"),
+    monitors=[M("c12_factor", ["c12_shrt.cpp", "c12_svd.cpp", "c12_procrustes.cpp"], san_scale=0.05, san_scale_thorough=0.02)],
 )
